@@ -383,6 +383,11 @@ func runC16Gen(t *testing.T, spec RunSpec) *Verdict {
 		return v
 	}
 	v.Extra = map[string]any{"source": src}
+	// the reference table of this generator seed is computed before (outside) the simulation
+	if _, gerr := genReference(t, gs, src, 0, 0); strings.HasPrefix(gerr, "infra") || strings.HasPrefix(gerr, "reference run: crash") || strings.HasPrefix(gerr, "reference run: deadlock") {
+		v.fail(P, refClass(gerr), "call-result", "generated:reference", "calls of generated functions on fresh VMs: "+gerr)
+		return v
+	}
 	env := newVMEnv(prog, c16Limits)
 	var history []string
 	var viol func()
@@ -396,7 +401,7 @@ func runC16Gen(t *testing.T, spec RunSpec) *Verdict {
 		env.boot()
 		n := 1 + s.Choose(spec.P("len", 10), "histlen")
 		mk := func() (string, runtime.FunctionInvocation, int64, string) {
-			k, arg := s.Choose(4, "op"), s.Choose(13, "arg")
+			k, arg := s.Choose(4, "op"), s.Choose(genArgs, "arg")
 			want, gerr := genReference(t, gs, src, k, arg)
 			inv, _ := c16Invocation(prog, fmt.Sprintf("e%d", k), []value.Value{vInt(int64(arg))})
 			return fmt.Sprintf("e%d(%d)", k, arg), inv, want, gerr
